@@ -149,3 +149,13 @@ func allNilTests(info *types.Info, cond ast.Expr) bool {
 	_, _, ok := nilTest(info, cond)
 	return ok
 }
+
+// hasNilTestDisjunct: cond is a nil test, or an || chain one of whose operands is a nil test.
+func hasNilTestDisjunct(info *types.Info, cond ast.Expr) bool {
+	cond = unparen(cond)
+	if b, ok := cond.(*ast.BinaryExpr); ok && b.Op.String() == "||" {
+		return hasNilTestDisjunct(info, b.X) || hasNilTestDisjunct(info, b.Y)
+	}
+	_, _, ok := nilTest(info, cond)
+	return ok
+}
